@@ -13,10 +13,6 @@ class C04(SchedProp):
             "deviations from 'newest first' (quick d=1, thorough d=2); states = programs, transitions = choice points")
     assumptions = ["per-execution step horizon = 50x the default run's pops + 500; exceeding it is reported as livelock"]
     kinds = ["choice"]
-    # the random-order queue raises IndirectCallCycleError from one place (engine_stack.py: a cycle child that
-    # is re-entered before its parent is registered); every program with a positive cycle can reach it under
-    # some pop order, so the finding is identified by that raise site, not by each program
-    site_keyed = (("error-must-answer:IndirectCallCycleError", "choice"),)
     fixed_kinds = ["unbuffered", "rc_first"]
     families = {"quick": [("FTC3", 42), ("FR", 32), ("FC3m", 48), ("F3.2", 96), ("F2.3", 192), ("F1.3s", 48), ("F1.2q", 96), ("F3.1", 8), ("F2.2", 8), ("F1.1", 4)],
                 "thorough": [("FTC3", 42), ("FR", 32), ("FC3m", 48), ("F1.2q", 96), ("F3.3/64", 32), ("F2.4/32", 32), ("F3.2", 96), ("F2.3", 192), ("F1.3s", 48), ("F1.2/8", 64),
